@@ -22,6 +22,7 @@ import (
 
 	jdoc "github.com/jsightapi/jsight-schema-go-library/formats/json"
 	"github.com/jsightapi/jsight-schema-go-library/notations/jschema"
+	"github.com/jsightapi/jsight-schema-go-library/rules/enum"
 	"github.com/jsightapi/jsight-schema-go-library/verifhooks"
 )
 
@@ -35,9 +36,9 @@ func goid() int {
 
 type gateSched struct {
 	mu      sync.Mutex
-	procOf  map[int]string            // goroutine id -> process name
-	waiting map[string]chan struct{}  // process -> channel it is blocked on
-	at      map[string]string         // process -> label it is blocked at
+	procOf  map[int]string           // goroutine id -> process name
+	waiting map[string]chan struct{} // process -> channel it is blocked on
+	at      map[string]string        // process -> label it is blocked at
 	arrived chan string
 }
 
@@ -73,6 +74,7 @@ func sharedAllOfRoots() (r1, r2 *jschema.Schema) {
 const mixRootText = "{\n  \"a\": @T,\n  \"c\": @C, // {optional: true}\n  \"l\": [ // {optional: true}\n    @T\n  ],\n" +
 	"  \"o\": 1, // {optional: true, or: [{type: \"integer\"}, {type: \"string\", maxLength: 3}]}\n  \"u\": @T | @A, // {optional: true}\n" +
 	"  \"n\": @T, // {optional: true, nullable: true}\n  \"m\": @A | @T, // {optional: true, nullable: true}\n" +
+	"  \"ee\": \"x\", // {optional: true, enum: @E}\n" +
 	"  \"e\": \"x\", // {optional: true, enum: [\"x\", \"y\"]}\n  \"r\": \"ab\", // {optional: true, regex: \"^a\"}\n  @K: true // {optional: true}\n}"
 const mixKeyText = "\"kk\" // {regex: \"^k\"}"
 
@@ -194,6 +196,8 @@ func init() {
 		}
 		docs := []string{`{"a": 1, "c": {"p": 1, "q": 2}}`, `{"a": -1}`, `{"a": 1}`, `[1]`, `{"a": 1, "c": {"p": 1}}`,
 			`{"a": 1, "o": "abc", "u": {"p": 1}, "e": "y", "r": "ax", "kz": true}`, `{"a": 1, "o": "abcd"}`, `{"a": 1, "u": 7, "kz": 1}`, `{"a": 1, "n": null, "m": null}`, `{"a": 1, "n": 2, "m": {"p": 1}}`}
+		// one enum rule object for all schemas of all goroutines (the private scenario too: a rule is a value the caller hands to many schemas)
+		sharedRuleE := enum.New("@E", "[\n  \"x\", // the first \n  \"y\" // the second\t\n]")
 		build := func() []*jschema.Schema {
 			t := jschema.New("@T", "1 // {min: 0}")
 			a := jschema.New("@A", "{\n  \"p\": 1\n}")
@@ -204,8 +208,11 @@ func init() {
 			} else {
 				c = jschema.New("@C", "{\n  \"p\": 1,\n  \"q\": 2\n}")
 			}
+			// one enum rule object (with comments) given to every schema of the round
+			ruleE := sharedRuleE
 			mk := func(name string) *jschema.Schema {
 				s := jschema.New(name, mixRootText)
+				_ = s.AddRule("@E", ruleE)
 				_ = s.AddType("@T", t)
 				_ = s.AddType("@A", a)
 				_ = s.AddType("@C", c)
@@ -294,6 +301,7 @@ func init() {
 						a := jschema.New("@A", "{\n  \"p\": 1\n}")
 						c := jschema.New("@C", "{\n  \"p\": 1,\n  \"q\": 2\n}")
 						s := jschema.New("s", mixRootText)
+						_ = s.AddRule("@E", sharedRuleE)
 						_ = s.AddType("@T", t)
 						_ = s.AddType("@A", a)
 						_ = s.AddType("@C", c)
